@@ -375,6 +375,19 @@ theorem seqDecode_keyed {α : Type} (items : List α) : seqDecode (keyed items) 
   seqDecode_keyed_perm items [] (keyed items) (by simp) (by simp) (by simp)
 
 
+
+/-- **the two layers composed**: the element nodes of ANY well-formed sequence, stored under
+`str(i)` next to arbitrary non-digit metadata entries and enumerated by the store in ANY
+order, are rebuilt by the key layer and decoded by the value layer into exactly the
+canonical elements — the item-by-item round trip of `Model/Serialize.lean` does not depend
+on its positional abstraction -/
+theorem roundtrip_seq_keyed (xs : List Val) (hw : wfItems xs = true)
+    (metas kids : List (Key × Node)) (hp : kids.Perm (keyed (encodeItems {} xs) ++ metas))
+    (hmeta : ∀ m ∈ metas, undec m.1 = none) (hmnd : (metas.map (·.1)).Nodup) :
+    (seqDecode kids).map decodeItems = some (.ok (canonList xs)) := by
+  rw [seqDecode_keyed_perm _ metas kids hp hmeta hmnd]
+  simp [roundtrip_items xs hw]
+
 /-- an element key missing below the reconstructed length makes the load fail (`KeyError`)
 instead of silently shortening or shifting the sequence -/
 theorem seqDecode_missing_raises {α : Type} (kids : List (Key × α)) (i : Nat)
